@@ -29,6 +29,7 @@ long   vf_stream_content(void *istream, char *buf, long cap); /* copy the unread
 void   vf_havoc(void *p, const char *type_name);                       /* scribble over every int/double leaf */
 void   vf_havoc_except(void *p, const char *type_name, const char *skip_prefixes); /* same, but members whose name starts with one of the |-separated prefixes keep their value */
 void   vf_same_scalars(const char *label, void *a, void *b, const char *type_name);  /* obligation: leaf-wise equal */
+void   vf_same_scalars_except(const char *label, void *a, void *b, const char *type_name, const char *skip_prefixes);
 void   vf_guarded(void *p, size_t n, void *mutex, const char *name);
 void   vf_guard_enable(int on);
 long   vf_locks_held(void);                          /* harness-internal error (never a violation) */
